@@ -226,6 +226,13 @@ func runC09(c *Ctx) {
 								perRequestTypes[typeFullName(rootT)] == "" && !isFresh(fn, root) {
 								shared = "field " + typeFullName(immT) + "." + field
 							}
+							// a map is shared by reference: the per-request COPY of a structure (the route entry embedded
+							// in the matched route) still points at the one map built at construction time
+							if shared == "" && immT != nil && immT.Obj().Pkg() != nil && isRepoPath(immT.Obj().Pkg().Path()) && !isFresh(fn, root) {
+								if !mapFieldMadePerRequest(p, reach, typeFullName(immT), field) {
+									shared = "field " + typeFullName(immT) + "." + field + " (the map is not made per request: the per-request copy of the structure shares it with every other request)"
+								}
+							}
 						}
 					}
 					if fv, isFV := o.V.(*ssa.FreeVar); isFV {
@@ -236,6 +243,41 @@ func runC09(c *Ctx) {
 					nWrites++
 					c.obD("R09.1", st, "map-write", false, "request-reachable code never updates a shared map", "update of a map held in "+shared)
 				}
+			}
+		}
+	}
+	// premise of the per-request types: none of them is allocated by construction-time code (an object prepared once by
+	// the route builder and written per request is shared by all requests, whatever its type)
+	{
+		var ctor []*ssa.Function
+		for _, n := range []string{"rt/middleware.DefaultRouter", "(*rt/middleware.defaultRouteBuilder).AddRoute", "(*rt/middleware.defaultRouteBuilder).Build",
+			"(*rt/middleware.defaultRouteBuilder).buildAuthenticators", "rt/middleware.NewContext", "rt/middleware.NewRoutableContext", "rt/middleware.newRoutableUntypedAPI", "rt/middleware.NewRouter"} {
+			if f := p.FnOpt(n); f != nil {
+				ctor = append(ctor, f)
+			}
+		}
+		built := p.Reach(ctor)
+		var fns []*ssa.Function
+		for fn := range built {
+			if !reach[fn] && fn.Parent() == nil {
+				fns = append(fns, fn)
+			}
+		}
+		sort.Slice(fns, func(i, j int) bool { return fns[i].String() < fns[j].String() })
+		for _, fn := range fns {
+			if p.isTestFn(fn) || isFixturePkg(fnPkgPath(fn)) {
+				continue
+			}
+			for _, in := range ownInstrs(fn) {
+				al, ok := in.(*ssa.Alloc)
+				if !ok || !al.Heap {
+					continue
+				}
+				n, _ := structOf(al.Type())
+				if n == nil || perRequestTypes[typeFullName(n)] == "" {
+					continue
+				}
+				c.obD("R09.1", al, "per-request-type-built-at-construction", false, "objects of the per-request types ("+typeFullName(n)+": "+perRequestTypes[typeFullName(n)]+") are never prepared by construction-time code", "a "+typeFullName(n)+" is allocated by "+fnName(fn)+", which runs when the router is built: the object is shared by every request that writes it")
 			}
 		}
 	}
@@ -333,10 +375,7 @@ func ruleR09_2(c *Ctx) {
 		a, ok := o.V.(*ssa.Alloc)
 		return ok && a.Heap && a.Parent() == lk && typeStr(a.Type()) == "*rt/middleware.MatchedRoute"
 	}
-	for _, r := range returnsOf(lk) {
-		ok, bad := allOrigins(r.Results[0], oNil(), isFreshRoute)
-		c.obI("R09.2", r, "fresh-matched-route", ok, "a lookup returns nil or a MatchedRoute allocated by that very call", "returned pointer is not a fresh allocation (a cached or shared *MatchedRoute would be mutated by concurrent requests): "+describeOrigin(bad))
-	}
+	ruleFreshMatchedRoute(c, "R09.2", "a lookup returns nil or a MatchedRoute allocated by that very call", "returned pointer is not a fresh allocation (a cached or shared *MatchedRoute would be mutated by concurrent requests)")
 	for _, in := range instrs(lk) {
 		al, isA := in.(*ssa.Alloc)
 		if !isA || !isFreshRoute(Origin{V: al, Index: -1}) {
@@ -395,7 +434,7 @@ func ruleR09_2(c *Ctx) {
 		if k != mrKey {
 			continue
 		}
-		ok, bad := allOrigins(call.Call.Args[2], oCall(0, "(*rt/middleware.Context).LookupRoute"))
+		ok, bad := allOrigins(wvArg(call, 2), oCall(0, "(*rt/middleware.Context).LookupRoute"))
 		c.obI("R09.2", call, "context-route-from-router", ok, "the route memoised in the request context is the one the router just returned", "origin "+describeOrigin(bad))
 	}
 	lr := p.Fn("(*rt/middleware.Context).LookupRoute")
@@ -403,22 +442,7 @@ func ruleR09_2(c *Ctx) {
 		ok, bad := allOrigins(r.Results[0], oNil(), oCall(0, "(rt/middleware.Router).Lookup"))
 		c.obI("R09.2", r, "lookup-route-from-router", ok, "LookupRoute returns what the router returned", "origin "+describeOrigin(bad))
 	}
-	// denco: params made per call
-	dl := p.Fn("(*rt/middleware/denco.Router).Lookup")
-	for _, ci := range callsIn(dl, "(*rt/middleware/denco.doubleArray).lookup") {
-		_, a := callArgs(ci.Common())
-		var buf ssa.Value
-		for _, x := range a {
-			if typeStr(x.Type()) == "[]rt/middleware/denco.Param" {
-				buf = x
-			}
-		}
-		isMk := false
-		if buf != nil {
-			_, isMk = buf.(*ssa.MakeSlice)
-		}
-		c.obI("R09.2", ci, "denco-params-per-call", isMk, "the trie lookup collects parameters into a slice made for this call", "params buffer "+describe(buf))
-	}
+	ruleDencoParamsPerCall(c, "R09.2")
 	c.min("R09.2", 6)
 }
 
@@ -523,13 +547,13 @@ func ruleR09_45(c *Ctx) {
 		var writes []*ssa.Call
 		for call, k := range withValueCalls(f, ctxKeyT) {
 			if m.key == "ctxSecurityPrincipal" && k == int64Const(p, "rt/middleware", "ctxSecurityScopes") {
-				written[k] = typeStr(unboxed(call.Call.Args[2]).Type())
+				written[k] = typeStr(unboxed(wvArg(call, 2)).Type())
 				continue
 			}
 			c.obI("R09.4", call, "writes-own-key", k == key, "the accessor writes the context key it reads ("+m.key+")", fmt.Sprintf("writes key %d", k))
 			if k == key {
 				writes = append(writes, call)
-				written[k] = typeStr(unboxed(call.Call.Args[2]).Type())
+				written[k] = typeStr(unboxed(wvArg(call, 2)).Type())
 			}
 		}
 		c.obRF("R09.4", f, "memoises", len(reads) == 1 && len(writes) == 1, "the accessor has one cache read and one cache write", fmt.Sprintf("%d reads, %d writes", len(reads), len(writes)))
@@ -542,7 +566,7 @@ func ruleR09_45(c *Ctx) {
 		var hitVal ssa.Value
 		for _, ref := range *rd.Referrers() {
 			if ta, ok := ref.(*ssa.TypeAssert); ok {
-				wt := typeStr(unboxed(wr.Call.Args[2]).Type())
+				wt := typeStr(unboxed(wvArg(wr, 2)).Type())
 				c.obI("R09.4", ta, "type-agreement", typeStr(ta.AssertedType) == wt, "the dynamic type asserted when reading the cache is the static type stored when writing it", "reads "+typeStr(ta.AssertedType)+", writes "+wt)
 				if ta.CommaOk {
 					okv := extractOf(ta, 1)
@@ -555,7 +579,7 @@ func ruleR09_45(c *Ctx) {
 			hit = factNil(vIs(rd), false) // `v != nil` style (Authorize)
 			hitVal = rd
 		}
-		miss := negate(hit)
+		miss := anyFact(negate(hit), factNil(vIs(rd), true)) // (nothing stored at all is a miss too)
 		// R09.5 computing call only on miss
 		comps := callsIn(f, m.compute...)
 		c.obRF("R09.5", f, "computes", len(comps) == 1, "the accessor has one computing call", fmt.Sprintf("%d", len(comps)))
@@ -570,7 +594,10 @@ func ruleR09_45(c *Ctx) {
 					continue
 				}
 				// (an exit taken because the computation yielded nothing has nothing to store)
-				if cv := comps[0].Value(); cv != nil && guardedBy(r, comps[0], factNil(vOrigins(oIsValue(cv)), true)) {
+				if cv := comps[0].Value(); cv != nil && guardedBy(r, comps[0], factNil(func(v ssa.Value) bool {
+					// (the computed VALUE being nil — not the computation's error being nil, which is the success path)
+					return typeStr(v.Type()) != "error" && vOrigins(oIsValue(cv))(v)
+				}, true)) {
 					continue
 				}
 				okStore := false
@@ -602,7 +629,7 @@ func ruleR09_45(c *Ctx) {
 		}
 		// what is written is what was computed
 		if len(comps) == 1 {
-			val := unboxed(wr.Call.Args[2])
+			val := unboxed(wvArg(wr, 2))
 			ok := false
 			for _, o := range originsOf(val) {
 				if o.V == comps[0].Value() {
@@ -718,9 +745,12 @@ func ruleMemoContextRooted(c *Ctx, rule string) {
 			return true, ""
 		}
 		n := 0
-		for _, ci := range callsIn(f, "context.WithValue") {
+		for _, site := range callSitesUnder(f, "context.WithValue") {
+			ci := site.In.(ssa.CallInstruction)
 			n++
-			ok, why := rooted(ci.Common().Args[0], 6)
+			var ok bool
+			var why string
+			site.at(func() { ok, why = rooted(ci.Common().Args[0], 6) }) // (in this accessor's calling context when the store lives in a shared helper)
 			c.obI(rule, ci, "memo-context-rooted-in-given-request", ok, "the context a stage result is stored into derives from the Context() of the request the accessor was given (through WithValue steps only), so the request handed back carries this stage's result on top of what the caller's request already carried — nothing cached by another stage's private copy", why)
 		}
 		c.obRF(rule, f, "memo-writes", n >= 1, "the accessor stores its result in a derived context", "")
@@ -749,4 +779,77 @@ func reachesThroughAppends(v, target ssa.Value, seen map[ssa.Value]bool) bool {
 		}
 	}
 	return false
+}
+
+// ruleFreshMatchedRoute: the router's Lookup returns nil or a *MatchedRoute it has just allocated. (C09: no state
+// shared between concurrent requests; C02: the authenticator that Authorize records in the route — and on which
+// NeedsAuth answers — belongs to one request.)
+func ruleFreshMatchedRoute(c *Ctx, rule, text, why string) {
+	lk := c.P.Fn("(*rt/middleware.defaultRouter).Lookup")
+	isFreshRoute := func(o Origin) bool {
+		a, ok := o.V.(*ssa.Alloc)
+		return ok && a.Heap && a.Parent() == lk && typeStr(a.Type()) == "*rt/middleware.MatchedRoute"
+	}
+	for _, r := range returnsOf(lk) {
+		if len(r.Results) < 1 {
+			continue
+		}
+		ok, bad := allOrigins(r.Results[0], oNil(), isFreshRoute)
+		c.obI(rule, r, "fresh-matched-route", ok, text, why+": "+describeOrigin(bad))
+	}
+}
+
+// ruleDencoParamsPerCall: the trie lookup collects the captured parameters into a slice made for this very call
+// (C09: no memory shared between concurrent lookups; C05: the parameters a lookup returned keep carrying the matched
+// text after later lookups).
+func ruleDencoParamsPerCall(c *Ctx, rule string) {
+	dl := c.P.Fn("(*rt/middleware/denco.Router).Lookup")
+	n := 0
+	for _, ci := range callsIn(dl, "(*rt/middleware/denco.doubleArray).lookup") {
+		_, a := callArgs(ci.Common())
+		var buf ssa.Value
+		for _, x := range a {
+			if typeStr(x.Type()) == "[]rt/middleware/denco.Param" {
+				buf = x
+			}
+		}
+		isMk := false
+		if buf != nil {
+			_, isMk = buf.(*ssa.MakeSlice)
+			if !isMk {
+				if isNilConst(buf) {
+					isMk = true
+				} else if ok, _ := allOrigins(buf, func(o Origin) bool { _, mk := o.V.(*ssa.MakeSlice); return mk }); ok {
+					isMk = true
+				}
+			}
+		}
+		n++
+		c.obI(rule, ci, "denco-params-per-call", isMk, "the trie lookup collects parameters into a slice made for this call", "params buffer "+describe(buf))
+	}
+	c.obRF(rule, dl, "denco-lookup-walks-trie", n >= 1, "Router.Lookup walks the double array", "")
+}
+
+// mapFieldMadePerRequest: every store to the map-typed field T.field, anywhere in the library, is made by
+// request-reachable code and stores a map made right there (so the map held by a per-request object is itself per
+// request). A field that is also filled at construction time holds a map shared by all requests.
+func mapFieldMadePerRequest(p *Prog, reach map[*ssa.Function]bool, typeName, field string) bool {
+	n := 0
+	for _, fn := range p.LibFuncs() {
+		for _, st := range fieldStores(fn, typeName, field) {
+			if st.Parent() != fn {
+				continue
+			}
+			n++
+			if !reach[fn] {
+				return false
+			}
+			for _, o := range originsOf(st.Val) {
+				if _, isMk := o.V.(*ssa.MakeMap); !isMk {
+					return false
+				}
+			}
+		}
+	}
+	return n > 0
 }
